@@ -491,14 +491,12 @@ theorem uri_chars_cover :
   decide +kernel
 
 /-- **`is_uri` on URI references**: every non-empty string of RFC 2396 URI characters
-with at most one `#` that does not *end* in `#` is accepted (`urn:a-b`, `a,b`,
-`http://www.w3.org/2001/XMLSchema-instance`, `x#frag`, …) -/
-theorem is_uri_accepts (u : Str) (h : isRfcUriRef u = true) (hl : u.getLast? ≠ some '#') :
-    isUri (some u) = true :=
-  isUri_of_rfc u h hl
+with at most one `#` is accepted (`urn:a-b`, `a,b`, `x#frag`, and namespace names with
+an empty fragment such as `http://www.w3.org/2000/09/xmldsig#`) -/
+theorem is_uri_accepts (u : Str) (h : isRfcUriRef u = true) : isUri (some u) = true :=
+  isUri_of_rfc u h
 
-example : isRfcUriRef ['u','r','n',':','a','-','b',',','c','#','f'] = true ∧
-    (['u','r','n',':','a','-','b',',','c','#','f'] : Str).getLast? ≠ some '#' := by decide
+example : isRfcUriRef ['u','r','n',':','a','-','b',',','c','#'] = true := by decide
 
 example : floatDatatype (.fin false 15 (-1)) = ['f', 'l', 'o', 'a', 't'] := by decide
 
@@ -741,35 +739,13 @@ theorem ncname_combining_mark_witness :
 
 /-! ### QName without prefix map (`{uri}local` notation) -/
 
-/-- **Full strength**: without `ns_map` a QName whose namespace is a URI reference is
-written as its `.text` and that text is read back. -/
-def QNameNoMapRoundTrip : Prop :=
-  ∀ (e : CEnv) (ns : Option Str) (l : Str), EnvOk e → QNameOk e ns l →
-    (∀ u, ns = some u → isRfcUriRef u = true) →
-    qnameSerialize (qtext ns l) none = some (qtext ns l, none) ∧
-    qnameDeserialize e (qtext ns l) none = some (qtext ns l)
-
-/-- **The code still violates it**: the regex wants at least one character after `#`,
-so a namespace that ends in `#` (XML Signature, RDF, …) is not a URI for `is_uri`
-and `{http://www.w3.org/2000/09/xmldsig#}Signature` is rejected. (The missing `-`
-and `,` of the earlier regex were repaired in c07c299.) -/
-theorem qname_uri_empty_fragment_counterexample : ¬ QNameNoMapRoundTrip := by
-  intro h
-  have := (h asciiCEnv (some ['u','r','n',':','x','#']) ['c'] asciiCEnv_ok
-    ⟨by decide, by intro u hu; injection hu with hu; subst hu; decide⟩
-    (by intro u hu; injection hu with hu; subst hu; decide)).2
-  revert this
-  decide
-
-/-- the XML Signature namespace is not a URI for `is_uri` -/
-theorem xmldsig_namespace_not_uri :
-    isRfcUriRef ['h','t','t','p',':','/','/','w','w','w','.','w','3','.','o','r','g','/','2','0','0','0','/',
-      '0','9','/','x','m','l','d','s','i','g','#'] = true ∧
+/-- the XML Signature namespace (empty fragment) is a URI for `is_uri` -/
+theorem xmldsig_namespace_is_uri :
     isUri (some ['h','t','t','p',':','/','/','w','w','w','.','w','3','.','o','r','g','/','2','0','0','0','/',
-      '0','9','/','x','m','l','d','s','i','g','#']) = false := by decide +kernel
+      '0','9','/','x','m','l','d','s','i','g','#']) = true := by decide +kernel
 
-/-- **Provable part**: round trip for every QName whose namespace `is_uri` accepts -/
-theorem qname_nomap_rt_partial (e : CEnv) (ns : Option Str) (l : Str) (hok : EnvOk e)
+/-- round trip for every QName whose namespace `is_uri` accepts (lemma for `qname_nomap_rt`) -/
+theorem qname_nomap_rt_of_is_uri (e : CEnv) (ns : Option Str) (l : Str) (hok : EnvOk e)
     (hq : QNameOk e ns l) (huri : ∀ u, ns = some u → isUri (some u) = true) :
     qnameSerialize (qtext ns l) none = some (qtext ns l, none) ∧
     qnameDeserialize e (qtext ns l) none = some (qtext ns l) := by
@@ -805,17 +781,18 @@ theorem qname_nomap_rt_partial (e : CEnv) (ns : Option Str) (l : Str) (hok : Env
     simp only [qtext, qnameDeserialize, qnameResolve, List.cons_append, hstrip', if_true, hsplit, hu]
     simp [hsp', hl, hune]
 
-/-- **Provable part, in terms of the value alone**: round trip for every QName whose
-namespace is an RFC 2396 URI reference that does not end in `#` -/
-theorem qname_nomap_rt_uriref (e : CEnv) (ns : Option Str) (l : Str) (hok : EnvOk e)
-    (hq : QNameOk e ns l) (huri : ∀ u, ns = some u → isRfcUriRef u = true ∧ u.getLast? ≠ some '#') :
+/-- **Full strength** (was refuted by `{urn:x#}c` before the empty fragment was
+accepted): without `ns_map` a QName whose namespace is an RFC 2396 URI reference is
+written as its `.text` and that text is read back as the same QName. -/
+theorem qname_nomap_rt (e : CEnv) (ns : Option Str) (l : Str) (hok : EnvOk e)
+    (hq : QNameOk e ns l) (huri : ∀ u, ns = some u → isRfcUriRef u = true) :
     qnameSerialize (qtext ns l) none = some (qtext ns l, none) ∧
     qnameDeserialize e (qtext ns l) none = some (qtext ns l) :=
-  qname_nomap_rt_partial e ns l hok hq (fun u hu => is_uri_accepts u (huri u hu).1 (huri u hu).2)
+  qname_nomap_rt_of_is_uri e ns l hok hq (fun u hu => is_uri_accepts u (huri u hu))
 
-example : QNameOk asciiCEnv (some ['u','r','n',':','a','-','b']) ['c'] ∧
-    isRfcUriRef ['u','r','n',':','a','-','b'] = true ∧ (['u','r','n',':','a','-','b'] : Str).getLast? ≠ some '#' := by
-  refine ⟨⟨by decide, ?_⟩, by decide, by decide⟩
+example : QNameOk asciiCEnv (some ['u','r','n',':','a','-','b','#']) ['c'] ∧
+    isRfcUriRef ['u','r','n',':','a','-','b','#'] = true := by
+  refine ⟨⟨by decide, ?_⟩, by decide⟩
   intro u hu; injection hu with hu; subst hu; decide
 
 /-! ## enumerations -/
@@ -833,37 +810,112 @@ def EnumStrRoundTrip : Prop :=
     enumSerialize (.atom (.str vals[i])) kw = .ok (vals[i], kw.nsMap) ∧
     enumDeserialize e (strEnum vals) vals[i] kw = some i
 
-/-- **The code violates it**: a member whose value starts with a blank is not found
-(`deserialize` strips the input first). -/
-theorem enum_str_whitespace_counterexample : ¬ EnumStrRoundTrip := by
+/-- **Still false** when two members differ only in white space: the lenient
+match on the stripped / re-joined input finds the *other* member first
+(`" x"` in an enumeration that also has `"x"`). A member whose value merely has
+surrounding white space is found since the verbatim fallback exists. -/
+theorem enum_str_variant_counterexample : ¬ EnumStrRoundTrip := by
   intro h
-  have := (h asciiCEnv [[' ', 'x']] 0 (by decide) {} (by decide)).2
+  have := (h asciiCEnv [['x'], [' ', 'x']] 1 (by decide) {} (by decide)).2
   revert this
   decide
 
-/-- a string value that survives `strip()` and `" ".join(split())` unchanged
-(xs:token-like values) -/
-def Collapsed (e : CEnv) (v : Str) : Prop := e.strip v = v ∧ joinSp (splitWs e.toEnv v) = v
+/-- no *other* member is a white-space variant (stripped or re-joined form) of member `i` -/
+def NoWsVariant (e : CEnv) (vals : List Str) (i : Nat) (h : i < vals.length) : Prop :=
+  ∀ j (hj : j < vals.length), j ≠ i →
+    vals[j] ≠ e.strip vals[i] ∧ vals[j] ≠ joinSp (splitWs e.toEnv (e.strip vals[i]))
 
-/-- **Provable part**: round trip for members with collapsed values -/
+/-- **Provable part**: round trip for every member — whatever white space its value
+has — provided no other member is a white-space variant of it -/
 theorem enum_str_rt_partial (e : CEnv) (vals : List Str) (i : Nat) (h : i < vals.length) (kw : Kw)
-    (hnd : vals.Nodup) (hc : Collapsed e vals[i]) :
+    (hnd : vals.Nodup) (hv : NoWsVariant e vals i h) :
     enumSerialize (.atom (.str vals[i])) kw = .ok (vals[i], kw.nsMap) ∧
     enumDeserialize e (strEnum vals) vals[i] kw = some i := by
   refine ⟨rfl, ?_⟩
+  have hlen : i < (strEnum vals).length := by simpa [strEnum] using h
+  have hother : ∀ j (hj : j < vals.length), j ≠ i →
+      enumMatch e (e.strip vals[i]) (splitWs e.toEnv (e.strip vals[i])) (.atom (.str vals[j])) kw = false := by
+    intro j hj hji
+    obtain ⟨h1, h2⟩ := hv j hj hji
+    simp [enumMatch, h1, h2]
   unfold enumDeserialize
-  rw [List.findIdx?_eq_some_iff_getElem]
-  refine ⟨by simpa [strEnum] using h, ?_, ?_⟩
-  · simp [strEnum, enumMatch, hc.1]
-  · intro j hji
+  by_cases hm : vals[i] = e.strip vals[i] ∨ vals[i] = joinSp (splitWs e.toEnv (e.strip vals[i]))
+  · -- the member itself matches the stripped / re-joined input
+    have hfind : (strEnum vals).findIdx?
+        (fun m => enumMatch e (e.strip vals[i]) (splitWs e.toEnv (e.strip vals[i])) m kw) = some i := by
+      rw [List.findIdx?_eq_some_iff_getElem]
+      refine ⟨hlen, ?_, ?_⟩
+      · rcases hm with hm | hm
+        · simp only [strEnum, List.getElem_map, enumMatch, Bool.or_eq_true, decide_eq_true_eq]
+          exact Or.inl hm
+        · simp only [strEnum, List.getElem_map, enumMatch, Bool.or_eq_true, decide_eq_true_eq]
+          exact Or.inr hm
+      · intro j hji
+        have := hother j (Nat.lt_trans hji h) (by omega)
+        simp [strEnum, this]
+    simp only [hfind]
+  · -- otherwise nobody matches, and the verbatim fallback finds exactly this member
+    have hnone : (strEnum vals).findIdx?
+        (fun m => enumMatch e (e.strip vals[i]) (splitWs e.toEnv (e.strip vals[i])) m kw) = none := by
+      rw [List.findIdx?_eq_none_iff]
+      intro m hmem
+      obtain ⟨j, hj, rfl⟩ := List.getElem_of_mem hmem
+      have hj' : j < vals.length := by simpa [strEnum] using hj
+      by_cases hji : j = i
+      · subst hji
+        simp only [strEnum, List.getElem_map, enumMatch, Bool.or_eq_false_iff, decide_eq_false_iff_not]
+        exact ⟨fun h1 => hm (Or.inl h1), fun h2 => hm (Or.inr h2)⟩
+      · have := hother j hj' hji
+        simpa [strEnum] using this
+    have hraw : vals[i] ≠ e.strip vals[i] := fun h1 => hm (Or.inl h1)
+    simp only [hnone, ne_eq, hraw, not_false_eq_true, if_true]
+    rw [List.findIdx?_eq_some_iff_getElem]
+    refine ⟨hlen, by simp [strEnum, exactRaw], ?_⟩
+    intro j hji
     have hj : j < vals.length := Nat.lt_trans hji h
     have hne : vals[j] ≠ vals[i] := by
       intro heq
       have := (List.getElem_inj hnd).mp heq
       omega
-    simp [strEnum, enumMatch, hc.1, hc.2, hne]
+    simp [strEnum, exactRaw, hne]
+
+/-- an enumeration with a single string member: **every** value round-trips,
+including `" x"`, `" "` and `"a  b"` (this was finding C05-enum-str-whitespace) -/
+theorem enum_str_rt_single (e : CEnv) (v : Str) (kw : Kw) :
+    enumSerialize (.atom (.str v)) kw = .ok (v, kw.nsMap) ∧
+    enumDeserialize e (strEnum [v]) v kw = some 0 := by
+  have := enum_str_rt_partial e [v] 0 (by simp) kw (by simp) (by
+    intro j hj hji
+    simp at hj
+    omega)
+  simpa using this
+
+/-- a string value that survives `strip()` and `" ".join(split())` unchanged
+(xs:token-like values) -/
+def Collapsed (e : CEnv) (v : Str) : Prop := e.strip v = v ∧ joinSp (splitWs e.toEnv v) = v
+
+/-- members with collapsed values round-trip in every enumeration with distinct values -/
+theorem enum_str_rt_collapsed (e : CEnv) (vals : List Str) (i : Nat) (h : i < vals.length) (kw : Kw)
+    (hnd : vals.Nodup) (hc : Collapsed e vals[i]) :
+    enumSerialize (.atom (.str vals[i])) kw = .ok (vals[i], kw.nsMap) ∧
+    enumDeserialize e (strEnum vals) vals[i] kw = some i := by
+  refine enum_str_rt_partial e vals i h kw hnd ?_
+  intro j hj hji
+  have hne : vals[j] ≠ vals[i] := by
+    intro heq
+    exact hji ((List.getElem_inj hnd).mp heq)
+  rw [hc.1, hc.2]
+  exact ⟨hne, hne⟩
 
 example : Collapsed asciiCEnv ['a', ' ', 'b'] := by unfold Collapsed; decide
+
+example : NoWsVariant asciiCEnv [[' ', 'x'], ['y']] 0 (by decide) := by
+  intro j hj hji
+  match j, hj, hji with
+  | 0, _, h0 => exact absurd rfl h0
+  | 1, _, _ =>
+    simp only [List.getElem_cons_succ, List.getElem_cons_zero]
+    decide
 
 /-- int enumerations: every member is found again from `str(value)` -/
 theorem enum_int_rt (e : CEnv) (vals : List Int) (i : Nat) (h : i < vals.length) (kw : Kw)
@@ -876,6 +928,8 @@ theorem enum_int_rt (e : CEnv) (vals : List Int) (i : Nat) (h : i < vals.length)
   have hrt := int_rt e.toEnv vals[i]
   unfold enumDeserialize intSerialize
   simp only [hstrip, hsplit]
+  suffices hfind : List.findIdx? (fun m => enumMatch e (intStr vals[i]) [intStr vals[i]] m kw) (intEnum vals)
+      = some i by simp [hfind]
   rw [List.findIdx?_eq_some_iff_getElem]
   refine ⟨by simpa [intEnum] using h, ?_, ?_⟩
   · simp [intEnum, enumMatch, matchAtomic, Atom.ty, atomDeserialize]
@@ -890,20 +944,35 @@ theorem enum_int_rt (e : CEnv) (vals : List Int) (i : Nat) (h : i < vals.length)
     unfold intSerialize at hrt
     simp [intEnum, enumMatch, matchAtomic, Atom.ty, atomDeserialize, hrt, hne]
 
-/-- token-list enumerations: `deserialize` finds the member, `serialize` has no
-converter for the tuple value (**defect**, see `enum_tuple_counterexample`) -/
-def EnumTupleRoundTrip : Prop :=
-  ∀ (e : CEnv) (toks : List Str) (kw : Kw), (∀ t ∈ toks, isNcName e t = true) →
-    ∃ s m, enumSerialize (.tuple (toks.map .str)) kw = .ok (s, m) ∧
-      enumDeserialize e [.tuple (toks.map .str)] s kw = some 0
+/-- **token-list enumerations** (full strength; `serialize` raised ConverterError for
+tuple values before): a member whose value is a tuple of tokens is written as the
+tokens joined by blanks and found again from that string -/
+theorem enum_tuple_rt (e : CEnv) (hok : EnvOk e) (toks : List Str) (kw : Kw)
+    (h : ∀ t ∈ toks, isNcName e t = true) :
+    enumSerialize (.tuple (toks.map .str)) kw = .ok (joinSp toks, kw.nsMap) ∧
+    enumDeserialize e [.tuple (toks.map .str)] (joinSp toks) kw = some 0 := by
+  have htok : ∀ t ∈ toks, Tok e.toEnv t := by
+    intro t ht
+    obtain ⟨hne, hall⟩ := ncName_chars e t (h t ht)
+    exact ⟨hne, fun c hc => ncChar_not_space e hok c (hall c hc)⟩
+  constructor
+  · simp [enumSerialize, strAtoms_serialize]
+  · have hstrip : e.strip (joinSp toks) = joinSp toks := by
+      rw [strip_eq_stripBy]; exact stripBy_tight _ _ (joinSp_tight e.toEnv toks htok)
+    unfold enumDeserialize
+    simp only [hstrip, splitWs_joinSp e.toEnv toks htok]
+    have : List.findIdx? (fun m => enumMatch e (joinSp toks) toks m kw) [EnumVal.tuple (toks.map Atom.str)]
+        = some 0 := by
+      simp [List.findIdx?_cons, enumMatch, matchList_strs]
+    simp [this]
 
-theorem enum_tuple_counterexample : ¬ EnumTupleRoundTrip := by
-  intro h
-  obtain ⟨s, m, h1, _⟩ := h asciiCEnv [['a'], ['b']] {} (by decide)
-  simp [enumSerialize] at h1
+example : ∀ t ∈ [['a'], ['b', '-', 'c']], isNcName asciiCEnv t = true := by decide
 
-/-- the reading direction does work on the witness -/
-theorem enum_tuple_reads :
-    enumDeserialize asciiCEnv [.tuple [.str ['a'], .str ['b']]] ['a', ' ', 'b'] {} = some 0 := by decide
+/-- a tuple value on its own is joined like a list -/
+theorem tuple_serializes_like_list (kw : Kw) (items : List Atom) :
+    enumSerialize (.tuple items) kw =
+      (match listSerialize kw items with
+        | .ok (ss, m) => .ok (joinSp ss, m)
+        | .error x => .error x) := rfl
 
 end Props.C05
